@@ -124,12 +124,25 @@ pub fn three_values<E: Entry>(label: &str) -> [E::V; 3] {
         }
         b = <E::V as Val>::gen(&mut rng, dom);
     }
+    // the third letter is the empty item where the value type has one (empty string, empty
+    // slice, empty row), otherwise a hostile value
     let mut c = <E::V as Val>::gen(&mut rng, Dom::new(Kind::Hostile));
-    for _ in 0..30 {
-        if !c.peq(&a) && !c.peq(&b) {
+    let mut found_empty = false;
+    for _ in 0..80 {
+        let cand = <E::V as Val>::gen(&mut rng, dom);
+        if cand.is_empty_container() && !cand.peq(&a) && !cand.peq(&b) {
+            c = cand;
+            found_empty = true;
             break;
         }
-        c = <E::V as Val>::gen(&mut rng, Dom::new(Kind::Hostile));
+    }
+    if !found_empty {
+        for _ in 0..30 {
+            if !c.peq(&a) && !c.peq(&b) {
+                break;
+            }
+            c = <E::V as Val>::gen(&mut rng, Dom::new(Kind::Hostile));
+        }
     }
     [a, b, c]
 }
